@@ -63,8 +63,9 @@ structure ECfg where
 def nodeTestM (d : Doc) (cfg : ECfg) (a : AxisInfo) (r : Ref) : Bool :=
   (a.typeTest == nodeType d r || a.typeTest == .all) &&
   (if a.lname != "" || a.pfx != "" then
-     if cfg.nsIface && a.hasNS then a.lname == localName d r && a.nsURI == nsURL d r
-     else a.lname == localName d r && a.pfx == prefixOf d r
+     -- `prefix:*` has an empty local name: `localOK := root.LocalName == "" || …`
+     if cfg.nsIface && a.hasNS then (a.lname == "" || a.lname == localName d r) && a.nsURI == nsURL d r
+     else (a.lname == "" || a.lname == localName d r) && a.pfx == prefixOf d r
    else true)
 
 /-! ## Per-node walks, written like the Go loops -/
